@@ -308,7 +308,8 @@ def main(tier="quick", seed=0, only=None):
                        "symbolic threshold > 0 (every value, hence values bracketing every distance) and threshold 0; square and rectangular "
                        "transformations with symbolic entries (1x2, 2x2, 3x2, 2x4)",
         "on_nucleus": "three concrete inputs with a point exactly on a nucleus (charge +1, -1, +3)",
-        "end_to_end": "real point-charge code under the routine for s/s, p (quick), s+p generalized and spherical p (thorough)",
+        "end_to_end": "real point-charge code under the routine for s/s, p (quick), s+p generalized and spherical p (thorough); "
+                      "real dispatch under a 2x6 symbolic transformation of a Cartesian s + spherical d basis (geometry pinned, Level B)",
         "outside": "rounding; more than 2 nuclei per point (the mask is applied per nucleus independently)",
     }
     assumptions = ["real-number semantics", "points do not coincide with nuclei in the symbolic cases (distance atoms positive)",
